@@ -29,6 +29,7 @@ ASSUMPTIONS = [
 ]
 TIMEOUT = {"quick": 600, "thorough": 3600}
 NAMES = ["a", "b", "ab", "c"]
+PUNCT_NAMES = ["mq.1", "mq.1:2", "mq", "a<b", "a>b", "a", "a:b", "b:1", "b", "x.y", "q-1", "m q", "k$", "[a]", "a|b", "a+"]
 
 
 def plan(tier, seed):
@@ -216,6 +217,9 @@ def run_sequence(names0, ops, counters, replay=False):
 def gen_sequence(rng):
     n = rng.randrange(0, 9)
     alphabet = NAMES[:rng.randrange(2, 5)]
+    if rng.random() < 0.4:
+        # element-style names with punctuation, including a SINGLE ':', '<' or '>' (not the separators '::', '<<', '>>')
+        alphabet = rng.sample(PUNCT_NAMES, rng.randrange(2, 5))
     names0 = [rng.choice(alphabet) for _ in range(n)]
     names = list(names0)
     ops = []
